@@ -8,6 +8,8 @@ APPEND = ('Vec::extend_from_slice', 'Vec::push', 'WriteBytesExt::write_u32', 'Wr
 NEUTRAL = ('Vec::try_reserve', 'Vec::try_reserve_exact', 'Vec::reserve_exact', 'Vec::starts_with', 'Vec::ends_with', 'Vec::contains', 'Vec::len', 'Vec::reserve', 'Vec::capacity', 'Vec::is_empty', 'Deref::deref', 'Vec::as_slice', 'Vec::as_ptr', 'Vec::with_capacity',
            'Clone::clone', 'Vec::to_vec', 'slice::to_vec', 'Vec::iter', 'Index::index', 'AsRef::as_ref', 'Borrow::borrow', 'Vec::first', 'Vec::last', 'Vec::get')
 POSITIONAL = ('IndexMut::index_mut', 'Vec::resize')
+MUT_VIEWS = ('chunks_exact_mut', 'chunks_mut', 'rchunks_mut', 'rchunks_exact_mut', 'iter_mut', 'split_at_mut', 'split_first_mut', 'split_last_mut', 'first_mut', 'last_mut',
+             'as_chunks_mut', 'array_chunks_mut', 'windows_mut')
 FORBIDDEN_HINT = ('take', 'replace', 'clear', 'truncate', 'drain', 'insert', 'remove', 'retain', 'split_off', 'set_len', 'swap', 'as_mut_slice', 'iter_mut', 'fill',
                   'copy_within', 'sort', 'clone_into', 'clone_from', 'dedup', 'pop', 'swap_remove', 'splice', 'copy_from_slice', 'reverse', 'rotate_left')
 
@@ -126,6 +128,13 @@ class BufferAnalysis:
                     self.positional.append((b, canon(name), e[2][1], p, e, roots))
                 elif called(name, 'DerefMut::deref_mut', 'Vec::as_mut_slice'):
                     self.effects.append((b.path, 'neutral', canon(name), loc, ''))
+                elif i0 == 0 and canon(name).split('::')[-1] in MUT_VIEWS:
+                    # a mutable view (chunks, iterator, split) of buffer bytes: of the part behind a position that R17.2 checks, or of everything
+                    sliced = any(s_[0] == 'call' and called(s_[1], 'IndexMut::index_mut') for s_ in subterms(e[2][0]))
+                    if sliced:
+                        self.effects.append((b.path, 'positional', canon(name), loc, 'a mutable view of buf[pos..], pos checked by R17.2'))
+                    else:
+                        self.effects.append((b.path, 'mutview', canon(name), loc, f'argument #{i0}'))
                 elif called(name, 'Number::compact_encode', 'Value::write_to_vec', 'LazyValue::write_to_vec'):
                     self.effects.append((b.path, 'append', canon(name), loc, ''))
                 else:
@@ -221,6 +230,10 @@ def r17_1(ctx, run, ba, rule='R17.1'):
         seen.add(k)
         n += 1
         d = f'{kind}[{callee.split("::")[-2] + "::" + callee.split("::")[-1] if "::" in callee else callee}]'
+        if kind == 'mutview':
+            run.violation(rule, fn, d, f'`{callee}` is applied to the whole output buffer ({detail}): it hands out mutable access to the bytes that were in the buffer before the call, '
+                          'counted from byte 0 rather than from where this call started to append', loc)
+            continue
         if kind == 'forbidden':
             hint = ''
             last = callee.split('::')[-1]
